@@ -14,6 +14,8 @@ HARNESSES = [("smtpd", "qmail-smtpd", ["qmail.o", "auto_qmail.o", "timeoutread.o
              ("qmtpd", "qmail-qmtpd", ["qmail.o", "auto_qmail.o"]),
              ("qmqpd", "qmail-qmqpd", ["qmail.o", "auto_qmail.o"])]
 NRANDOM = {"quick": {"smtpd": 9000, "qmtpd": 9000, "qmqpd": 6000}, "thorough": {"smtpd": 150000, "qmtpd": 150000, "qmqpd": 80000}}
+# harness/c07_date.c: the real datetime_tai() / date822fmt() on their own (no daemon); lines "DT ..." / "UB ..." of the same driver
+NDATE = {"quick": 40000, "thorough": 4000000}
 
 RULE = ("whole sessions through the real daemons (ASan+UBSan build of the working tree; real qmail.c; real pipe/fork/execv of a stand-in queue "
         "program that records descriptors 0 and 1 and ends as scripted). Enumerated, seed-independent: every exit status 0..255 of the queue program "
@@ -27,7 +29,14 @@ RULE = ("whole sessions through the real daemons (ASan+UBSan build of the workin
         "Compared with the Lean model: every reply byte, the daemon's exit status, every byte each queue run received on descriptors 0 and 1. "
         "Oracle (independent strict netstring grammar, reference SMTP decoder, independent calendar and hop count, qmail-queue.8 exit classes): "
         "ack => exactly that message with a complete envelope of exactly the acknowledged addresses and exit 0; no ack => no complete envelope or "
-        "no success; refusals have the documented class. Non-trivial = distinct case in which a queue program was actually started.")
+        "no success; refusals have the documented class. Non-trivial = distinct case in which a queue program was actually started. "
+        "Separately (harness/c07_date.c, counted in evaluations, not in non-trivial): the real datetime_tai() and date822fmt() on the first and last second "
+        "of every day 1968..2106, on Feb 28 / Mar 1 / Dec 31 (-1 s, 0, +1 s, noon, last second, next day) of every year -430..3030, the 1st of every month "
+        "of the century years, the years around every 25th 400-year boundary and every 97th century out to both ends of the supported range "
+        "[(INT_MIN+11017)*86400, (INT_MAX-4)*86400+86399] (the two ends themselves; one step outside must trip UBSan in a forked child), the 32-bit time_t ends, "
+        "plus %s seeded random instants; all eight fields of struct datetime and the formatted string are compared with Nq.Datetime.tai / Received.date822 "
+        "(DISAGREE) and the predicate of theorem C07_datetime_civil (valid Gregorian date whose independently computed day number is floor(t/86400), base-60 "
+        "time of day, weekday) is evaluated on the implementation's struct (ORACLE).")
 
 def is_known(line):
     """an oracle line that reproduces an open entry of known_findings.json (matched on the tag the driver computes from the case)"""
@@ -44,6 +53,16 @@ def mutate_cases(dis, seed, per=150):
         if not cs:
             continue
         f = cs.split("|")
+        if f[0] == "DT" and len(f) >= 2:          # an instant of the date harness: its neighbourhood in seconds / days / years
+            try:
+                t = int(f[1])
+            except ValueError:
+                continue
+            for dlt in (0, 1, -1, 3600, 86399, 86400, -86400, 31 * 86400, 365 * 86400, -365 * 86400, 1461 * 86400, 36524 * 86400):
+                out.add("DT %d" % (t + dlt))
+            for _ in range(20):
+                out.add("DT %d" % (t + rnd.randint(-400 * 86400, 400 * 86400)))
+            continue
         if len(f) < 13:
             continue
         idx = 15 if f[0] == "S" else 12           # stream / request bytes
@@ -92,11 +111,12 @@ def main():
             for name, like, excl in HARNESSES:
                 hs[name] = s.cc(os.path.join(VERIF, "harness", "c07_%s.c" % name), os.path.join(s.dir, "h_c07_" + name),
                                 link_like=like, objs_exclude=excl)
+            hdate = s.cc(os.path.join(VERIF, "harness", "c07_date.c"), os.path.join(s.dir, "h_c07_date"), extra="fs.a")
             env = {"C07_QQBIN": qq, "C07_TMP": s.dir}
             drv = driver_path("drv_c07")
 
             def all_on(path):
-                return "(" + " && ".join("%s - < %s" % (hs[n], path) for n, _, _ in HARNESSES) + ")"
+                return "(" + " && ".join(["%s - < %s" % (hs[n], path) for n, _, _ in HARNESSES] + ["%s - < %s" % (hdate, path)]) + ")"
             cmds = []
             corpus = os.path.join(VERIF, "corpus", PROP + ".txt")
             if c.replay:
@@ -110,7 +130,8 @@ def main():
                 if os.path.exists(corpus):
                     cmds.append(all_on(corpus))
                 for i in range(NCPU):
-                    cmds.append("(" + " && ".join("%s %d %d %d %d" % (hs[n], nrand[n], c.seed, i, NCPU) for n, _, _ in HARNESSES) + ")")
+                    cmds.append("(" + " && ".join(["%s %d %d %d %d" % (hs[n], nrand[n], c.seed, i, NCPU) for n, _, _ in HARNESSES] +
+                                                  ["%s %d %d %d %d" % (hdate, NDATE[c.tier], c.seed, i, NCPU)]) + ")")
             outs = run_pipeline(cmds, drv, env=env)
             stats, samples, disagree, oracle, errors = parse_driver_output(outs)
 
@@ -145,7 +166,7 @@ def main():
     c.cov["evaluations"] = int(stats.get("cases", 0))
     c.cov["distinct_nontrivial"] = int(stats.get("distinct_nontrivial", 0))
     c.cov["traces_validated_against_impl"] = max(0, int(stats.get("cases", 0)) - int(stats.get("disagree", 0)))
-    c.cov["rule"] = RULE % ("+".join(str(nrand[n]) for n, _, _ in HARNESSES))
+    c.cov["rule"] = RULE % ("+".join(str(nrand[n]) for n, _, _ in HARNESSES), NDATE[c.tier])
     c.cov["exhaustive"] = False
     c.cov["samples"] = [x[:1200] for x in samples[:6]] or ["(no sample emitted)"]
     c.cov["input_distribution"] = {k: v for k, v in stats.items() if k not in ("cases", "distinct_nontrivial", "disagree", "oracle_fail")}
